@@ -380,6 +380,13 @@ fn ref_lzma2_inner(data: &[u8], strict: bool, d: &mut RefDec) -> Result<usize, L
 
 // ------------------------------------------------------------------ .xz writer
 
+fn enc_int(plan: &XzPlan, field: &str, v: u64) -> Vec<u8> {
+    match &plan.ov_overlong {
+        Some((f, tenth)) if f == field => vli_overlong(v, *tenth),
+        _ => vli(v),
+    }
+}
+
 pub fn vli(mut v: u64) -> Vec<u8> {
     let mut out = Vec::new();
     loop {
@@ -391,6 +398,16 @@ pub fn vli(mut v: u64) -> Vec<u8> {
         }
         out.push(b | 0x80);
     }
+}
+
+/// The value `v` spelt in TEN bytes: nine groups with the continuation bit set and
+/// a tenth byte `tenth` on top - one byte more than the format allows. Read as a
+/// number it is v + tenth * 2^63, so for tenth >= 2 it differs from v by a multiple
+/// of 2^64 (what a 64-bit shift silently drops).
+pub fn vli_overlong(v: u64, tenth: u8) -> Vec<u8> {
+    let mut out: Vec<u8> = (0..9).map(|i| (((v >> (7 * i)) & 0x7F) as u8) | 0x80).collect();
+    out.push(tenth & 0x7F);
+    out
 }
 
 /// Parse a VLI (up to 9 bytes, non-minimal encodings tolerated).
@@ -472,6 +489,10 @@ pub struct XzPlan {
     pub ov_hflags: Option<[u8; 2]>,
     pub ov_hcrc: Option<u32>,
     pub ov_index_count: Option<u64>,
+    /// (field, tenth byte): write that integer over-long (ten bytes, see
+    /// `vli_overlong`); fields: "index.count", "index.rec<i>.unpadded",
+    /// "index.rec<i>.uncompressed", "block<i>.csize", "block<i>.usize"
+    pub ov_overlong: Option<(String, u8)>,
     /// per record overrides: (record index, unpadded, uncompressed)
     pub ov_records: Vec<(usize, Option<u64>, Option<u64>)>,
     /// drop / add index records: the index lists this many records
@@ -537,12 +558,12 @@ pub fn build_xz(plan: &XzPlan) -> XzBuilt {
         body.push(flags);
         let mut rel: Vec<(String, usize, usize)> = vec![("flags".into(), 1, 1)];
         if b.has_csize {
-            let v = vli(b.ov_csize.unwrap_or(b.payload.len() as u64));
+            let v = enc_int(plan, &format!("block{}.csize", bi), b.ov_csize.unwrap_or(b.payload.len() as u64));
             rel.push(("csize".into(), 1 + body.len(), v.len()));
             body.extend_from_slice(&v);
         }
         if b.has_usize {
-            let v = vli(b.ov_usize.unwrap_or(b.content.len() as u64));
+            let v = enc_int(plan, &format!("block{}.usize", bi), b.ov_usize.unwrap_or(b.content.len() as u64));
             rel.push(("usize".into(), 1 + body.len(), v.len()));
             body.extend_from_slice(&v);
         }
@@ -621,14 +642,14 @@ pub fn build_xz(plan: &XzPlan) -> XzBuilt {
             }
         }
     }
-    let cnt = vli(plan.ov_index_count.unwrap_or(records.len() as u64));
+    let cnt = enc_int(plan, "index.count", plan.ov_index_count.unwrap_or(records.len() as u64));
     f("index.count".into(), istart + 1, cnt.len(), &mut fields);
     idx.extend_from_slice(&cnt);
     for (i, (u, c)) in records.iter().enumerate() {
-        let a = vli(*u);
+        let a = enc_int(plan, &format!("index.rec{}.unpadded", i), *u);
         f(format!("index.rec{}.unpadded", i), istart + idx.len(), a.len(), &mut fields);
         idx.extend_from_slice(&a);
-        let b = vli(*c);
+        let b = enc_int(plan, &format!("index.rec{}.uncompressed", i), *c);
         f(format!("index.rec{}.uncompressed", i), istart + idx.len(), b.len(), &mut fields);
         idx.extend_from_slice(&b);
     }
@@ -730,13 +751,13 @@ pub fn judge_xz(file: &[u8], delivered: &[u8]) -> Judge {
         if flags & 0x40 != 0 {
             csize = match parse_vli(body, &mut p) {
                 Some(v) => Some(v),
-                None => return Judge::Unjudged("block header: bad VLI".into()),
+                None => return dis("block.csize", "the declared compressed size is not an integer of at most nine bytes (63 bits)".into()),
             };
         }
         if flags & 0x80 != 0 {
             usize_ = match parse_vli(body, &mut p) {
                 Some(v) => Some(v),
-                None => return Judge::Unjudged("block header: bad VLI".into()),
+                None => return dis("block.usize", "the declared uncompressed size is not an integer of at most nine bytes (63 bits)".into()),
             };
         }
         for _ in 0..((flags & 3) + 1) {
